@@ -37,4 +37,4 @@ def _nt(g, desc):
     return bool(regions(g))
 
 
-check, harness, jobs, replay = make(_oracle, stages=(0, 1, 2, 3), payloads=("basic", "ast"), nontrivial=_nt)
+check, harness, jobs, replay = make(_oracle, stages=(0, 1, 2, 3), payloads=("basic", "ast"), nontrivial=_nt, quick_n5_max_edges=7)
